@@ -505,7 +505,7 @@ func (b *Builder) of1(v ssa.Value, at ssa.Instruction, depth int) *Term {
 		l, r := b.of(x.X, at, depth+1), b.of(x.Y, at, depth+1)
 		op := x.Op.String()
 		// constants to the right for commutative/comparison operators
-		if l.Op == "const" && r.Op != "const" {
+		if l.Op == "const" && r.Op != "const" && !(op == "+" && !isIntType(x.X.Type())) {
 			if sw, ok := swapOp[op]; ok {
 				l, r, op = r, l, sw
 			}
